@@ -287,6 +287,16 @@ def handleCap (ops : BufOps β) (cfg : Cfg) (host : Bytes) (strm : Nat) (readRc 
   let d := doOutput ops cfg host strm readRc s.buf rc vis (s.weof && decide (vis.length = s.pipe.length))
   (d.ret, { s with buf := d.buf, pipe := s.pipe.drop d.took, closed := decide (d.ret ≤ 0) }, d.rc, d.ems)
 
+/-- the loop after the remote side has closed when every read is limited to `cap` bytes: handler calls
+    (`sstep .. (.call cap)` each) until one returns <= 0; (number of calls, last return value, ...) -/
+def drainCap (ops : BufOps β) (cfg : Cfg) (host : Bytes) (strm : Nat) (readRc : Bool) (cap : Option Nat) :
+    Nat → Stream β → Int → List Em → Nat → Nat × Int × Stream β × Int × List Em
+  | 0, s, rc, acc, k => (k, 1, s, rc, acc)
+  | fuel + 1, s, rc, acc, k =>
+    let (r, s', rc', e) := handleCap ops cfg host strm readRc cap s rc
+    if r ≤ 0 then (k + 1, r, s', rc', acc ++ e)
+    else drainCap ops cfg host strm readRc cap fuel s' rc' (acc ++ e) (k + 1)
+
 /-- events of one descriptor -/
 inductive SEv where
   | arrive (b : Bytes)          -- the remote side writes (ignored once it has closed)
